@@ -55,7 +55,7 @@ func (c *c14ctx) fail(n ast.Node, f string, a ...any) {
 var c14vars = map[string]string{
 	"x": "Vx", "z": "Vz", "need": "Vneed", "n": "Vn", "now": "Vnow", "sec": "Vsec", "num": "Vnum",
 	"length": "Vlength", "size": "Vsize", "i": "Vi", "o": "Vo", "s": "Vs", "v": "Vv",
-	"offset": "Voffset", "timestamp": "Vtimestamp",
+	"offset": "Voffset", "timestamp": "Vtimestamp", "oldN": "VoldN", "oldNow": "VoldNow",
 	"len(data)": "VlenData", "r.offsets[z][x]": "Vtab",
 }
 
@@ -285,25 +285,32 @@ func (c *c14ctx) block(list []ast.Stmt, ind string) string {
 	return gblock(items, ind)
 }
 
-// errCheck: `if err != nil { ...; return ... }` -> the rendered body
-func (c *c14ctx) errCheck(s ast.Stmt) (string, bool) {
+// errCheck: `if err != nil { ...; return ... }`.  Without further statements (or with `_ = r.Close()` only)
+// -> SErrCheck "<rendered body>"; with statements before the return -> SErrDo [statements] "<return>"
+func (c *c14ctx) errCheck(s ast.Stmt, ind string) (string, bool) {
 	x, ok := s.(*ast.IfStmt)
 	if !ok || x.Init != nil || x.Else != nil || len(x.Body.List) == 0 || c.txt(x.Cond) != "err != nil" {
 		return "", false
 	}
+	last := x.Body.List[len(x.Body.List)-1]
+	if _, ok := last.(*ast.ReturnStmt); !ok {
+		c.fail(s, "error check that does not end in a return")
+	}
 	var parts []string
-	for i, b := range x.Body.List {
+	simple := true
+	for _, b := range x.Body.List[:len(x.Body.List)-1] {
 		t := c.txt(b)
-		if i == len(x.Body.List)-1 {
-			if _, ok := b.(*ast.ReturnStmt); !ok {
-				c.fail(s, "error check that does not end in a return")
-			}
-		} else if t != "_ = r.Close()" {
-			c.fail(s, "unknown statement %s in an error check", t)
+		if t != "_ = r.Close()" {
+			simple = false
 		}
 		parts = append(parts, t)
 	}
-	return strings.Join(parts, "; "), true
+	if simple {
+		parts = append(parts, c.txt(last))
+		return "SErrCheck " + c14q(strings.Join(parts, "; ")), true
+	}
+	body := c.block(x.Body.List[:len(x.Body.List)-1], ind)
+	return fmt.Sprintf("SErrDo %s\n%s    %s", c14q(c.txt(last)), ind, body), true
 }
 
 func c14call(e ast.Expr) (fun string, args []ast.Expr, ok bool) {
@@ -353,8 +360,8 @@ func c14assigns(list []ast.Stmt, name string) bool {
 }
 
 func (c *c14ctx) stmt(s ast.Stmt, ind string) []string {
-	if t, ok := c.errCheck(s); ok {
-		return []string{"SErrCheck " + c14q(t)}
+	if t, ok := c.errCheck(s, ind); ok {
+		return []string{t}
 	}
 	st := c.txt(s)
 	switch x := s.(type) {
@@ -447,6 +454,32 @@ func (c *c14ctx) stmt(s ast.Stmt, ind string) []string {
 		cond := c.boolExpr(x.Cond, "cond")
 		return append(pre, fmt.Sprintf("SIf %s %s\n%s    %s\n%s    %s", c14q(c.txt(x.Cond)), cond, ind, th, ind, el))
 	case *ast.AssignStmt:
+		// a, b := c, d with identifiers on both sides, none of a, b among c, d: two lets in order
+		if x.Tok == token.DEFINE && len(x.Lhs) == 2 && len(x.Rhs) == 2 {
+			ids := map[string]bool{}
+			okp := true
+			for _, e := range append(append([]ast.Expr{}, x.Lhs...), x.Rhs...) {
+				id, ok := e.(*ast.Ident)
+				if !ok || ids[id.Name] {
+					okp = false
+					break
+				}
+				ids[id.Name] = true
+			}
+			if okp {
+				var out []string
+				for i := range x.Lhs {
+					l := x.Lhs[i].(*ast.Ident).Name
+					fv, ok := c14vars[l]
+					if !ok {
+						c.fail(s, "%s is not a variable of Model/C14_syntax.v", l)
+					}
+					c.localTy[c.fn+"."+l] = c.typeOf(x.Rhs[i])
+					out = append(out, "SLet "+fv+" "+c14q(st)+" "+c.intExpr(x.Rhs[i], l))
+				}
+				return out
+			}
+		}
 		return []string{c.assign(x)}
 	case *ast.ExprStmt:
 		c.fail(s, "unknown expression statement %s", st)
